@@ -17,6 +17,8 @@ def _child(job, prop, tier, seed, replay_dir, conn):
         from vf import env
         env.bootstrap()
         from vf.harness import H, run_harness
+        os.environ["VERIF_REPLAY_DIR"] = replay_dir or ""
+        os.environ["VERIF_TIER_RUN"] = tier
         r = job.fn(**job.kwargs)
         results = []
         if isinstance(r, H):
